@@ -79,6 +79,37 @@ def fileRead (fs : Fs) (fd : Fd) (len : Nat) : Fd × Option Bytes :=
   | (fd', .ok d) => (fd', some d)
   | (fd', .error _) => (fd', none)
 
+/-- lseek under the environment's choice to fail: `k = 0` → THIS call fails (position unchanged), otherwise the
+    countdown goes on; `none` = no failure pending -/
+def lseekF (fs : Fs) (fd : Fd) (off : Int) (w : Whence) : Option Nat → (Fd × Except Errno Nat) × Option Nat
+  | some 0 => ((fd, .error .einval), none)
+  | some (k + 1) => (sysLseek fs fd off w, some k)
+  | none => (sysLseek fs fd off w, none)
+
+/-- File::size when the environment lets the k-th of its lseek calls fail (k = 0, 1, 2; a larger k never fires):
+    the error returns of File.cpp:180-189.  Note k = 2: the position has been moved to the end and is NOT restored. -/
+def fileSizeF (fs : Fs) (fd : Fd) (k : Nat) : Fd × Option Nat :=
+  match lseekF fs fd 0 .cur (some k) with
+  | ((_, .error _), _) => (fd, none)
+  | ((fd1, .ok cur), f1) =>
+    match lseekF fs fd1 0 .end_ f1 with
+    | ((_, .error _), _) => (fd1, none)
+    | ((fd2, .ok size), f2) =>
+      if cur ≠ size then
+        match lseekF fs fd2 cur .set f2 with
+        | ((_, .error _), _) => (fd2, none)
+        | ((fd3, .ok _), _) => (fd3, some size)
+      else (fd2, some size)
+
+/-- File::readAll(String&) under the same choice: size() fails → false, nothing read -/
+def fileReadAllF (fs : Fs) (fd : Fd) (k : Nat) : Fd × Option Bytes :=
+  match fileSizeF fs fd k with
+  | (fd1, none) => (fd1, none)
+  | (fd1, some size) =>
+    match sysRead fs fd1 size with
+    | (fd2, .error _) => (fd2, none)
+    | (fd2, .ok d) => (fd2, some d)
+
 /-- the operations on one open File object and what they answer -/
 inductive FileOp
   | write (d : Bytes)
@@ -86,6 +117,9 @@ inductive FileOp
   | readAll
   | size
   | read (len : Nat)
+  | seekF (off : Int) (w : Whence)      -- File::seek whose lseek fails
+  | sizeF (k : Nat)                     -- File::size whose k-th lseek fails
+  | readAllF (k : Nat)                  -- File::readAll whose k-th lseek (inside size) fails
 deriving Repr
 
 inductive FileOut
@@ -101,6 +135,9 @@ def fileStep (fs : Fs) (fd : Fd) : FileOp → Fs × Fd × FileOut
   | .readAll => let (fd', r) := fileReadAll fs fd; (fs, fd', .data r)
   | .size => let (fd', r) := fileSize fs fd; (fs, fd', .size r)
   | .read n => let (fd', r) := fileRead fs fd n; (fs, fd', .data r)
+  | .seekF _ _ => (fs, fd, .pos none)
+  | .sizeF k => let (fd', r) := fileSizeF fs fd k; (fs, fd', .size r)
+  | .readAllF k => let (fd', r) := fileReadAllF fs fd k; (fs, fd', .data r)
 
 /-- a script of operations on one File object -/
 def runOps (fs : Fs) (fd : Fd) : List FileOp → Fs × Fd × List FileOut
